@@ -24,9 +24,9 @@ RULE = (
     "empty children added) or break it (atom size, union<->product, child dropped, reference redirected, never-"
     "equivalence flag flipped), or an independent grammar; each side with group_equiv on or off (collapsed / "
     "uncollapsed equivalence paths); a quarter of these are near misses with duplicated nonterminals. (templates, ~12%) "
-    "randomly decorated instances of the shapes behind the repaired defects and the open finding: a match concluded under an ancestor "
+    "randomly decorated instances of the shapes behind the repaired defects (the last of them, the asymmetry, fixed by 91c1aef): a match concluded under an ancestor "
     "pair that later fails and is looked up again (7890ace), a chained equivalence rule against a unary rule that is not "
-    "an equivalence (e943cb6), a failed pair met again through other equivalence steps, and the shape of the open finding (two chains of four uncollapsed equivalence steps whose ends refer back to different classes of the chain, a candidate pair met inside and outside the pair in progress). (word, ~28%) pairs of "
+    "an equivalence (e943cb6), a failed pair met again through other equivalence steps, and the shape of the asymmetry finding fixed by 91c1aef (two chains of four uncollapsed equivalence steps whose ends refer back to different classes of the chain, a candidate pair met inside and outside the pair in progress). (word, ~28%) pairs of "
     "specifications FOUND BY REAL SEARCHES over 22 word classes x 12 packs of harness/universes/words_ext.py "
     "(symmetries, inferral, factories, two expansion sets, one-way rules, letter-wise products with 3+ "
     "factors, a non-atom verification strategy) x RuleDB / RuleDBForgetStrategy / RuleDBForest with and without reverse "
@@ -49,9 +49,10 @@ TECHNIQUE = (
 )
 LEVEL_TEXT = (
     "Theorems of coq/theories/Props/C12.v (22, all closed under the global context). The model of the search takes a "
-    "flag `exact` for the recursive-match test: false = /repo (_ancestors holds product(eq_path1, eq_path2)), true = the "
-    "repair proposed for the open finding (only the pair of current classes); the harness detects which one the code "
-    "under test implements and runs the model with it; every theorem mentioning `exact` is proved for both. For ALL "
+    "flag `exact` for the recursive-match test: true = /repo as it is since fix 91c1aef (_ancestors holds only the pair of "
+    "current classes), false = the code before that fix (_ancestors held product(eq_path1, eq_path2); historic, run by no "
+    "case); the harness detects which one the code under test implements (today: exact = true) and runs the model with "
+    "it; every theorem mentioning `exact` is proved for both. For ALL "
     "pairs of specifications (finite maps class -> rule descriptor; wf_spec where stated: an equivalence rule has one, "
     "non-empty, child and equivalence chains end; products have no empty factor; roots not empty - decided on every "
     "specification of every run), all objects given as parse trees of any size: C12_perm_inv (_perm_inv of a "
@@ -67,22 +68,23 @@ LEVEL_TEXT = (
     "and state), C12_check_answers (on closed specifications no exception: True or False); SYMMETRY: C12_symmetric and "
     "C12_check_symmetric (exact = true: check(s1, s2) = check(s2, s1) for ALL specifications, chained equivalence rules "
     "included, no fuel), C12_symmetric_flat / C12_check_symmetric_flat (both tests, specifications without chained "
-    "equivalence rules), C12_symmetric_refuted (exact = false: two well-formed specifications with check True one way "
-    "and False the other - the open finding, replayed on the real code by findings/C12_asymmetric_check.py); "
+    "equivalence rules), C12_symmetric_refuted (exact = false, i.e. the code BEFORE 91c1aef: two well-formed specifications with check True "
+    "one way and False the other - the finding fixed by 91c1aef, findings/C12_asymmetric_check.py; a witness of the old "
+    "code only); "
     "REFLEXIVITY: C12_reflexive_atoms, C12_reflexive_never_false, C12_check_reflexive (no fuel); "
     "C12_check_true_bijection (no fuel: when check answers True the bijection constructed from the terminating run is "
     "a size-preserving bijection with a true inverse)."
 )
 LEVEL_NOTE = (
-    "OPEN FINDING (known_findings.json asymmetric-check-with-chained-equivalences): with the code of /repo the test is "
-    "NOT symmetric on specifications with chained (uncollapsed) equivalence rules; C12_symmetric_refuted is the model's "
-    "witness, findings/C12_asymmetric_check.py the repro on the real code (also with the default group_equiv=True), "
-    "findings/C12_asymmetric_check.diff the proposed repair (4 hunks, 45 repo tests green). The check prints "
-    "KNOWN-FINDING for exactly this (both directions answer, they differ, the pair has chained equivalence rules, "
-    "nothing else is wrong) and reports any other asymmetry. With the repair applied the harness switches the model to "
-    "exact = true by itself (tested: quiet, 0 mismatches on 21 000 cases) and the full symmetry theorem applies. "
-    "C12_symmetric_partial is kept: for exact = false on chained specifications only the certificate-level symmetry "
-    "holds. The fuel-free statements still quantify the parse-tree maps over 'every fuel above some bound' (the bound "
+    "FIXED FINDING (known_findings.json asymmetric-check-with-chained-equivalences, kind fixed, commit 91c1aef): before that "
+    "commit the test was NOT symmetric on specifications with chained (uncollapsed) equivalence rules; "
+    "C12_symmetric_refuted is the model's witness of the old code, findings/C12_asymmetric_check.py the repro (also with "
+    "the default group_equiv=True), findings/C12_asymmetric_check.diff the repair that was committed. /repo now implements "
+    "exact = true: the harness detects it (exact_mode() = 1), runs the model with it on every case (quiet, 0 mismatches "
+    "on 21 000 cases) and the full symmetry theorem C12_symmetric applies; nothing is masked any more (finding_match "
+    "answers only for exact_mode() = 0 and core masks only `open` entries), so ANY asymmetry is reported. "
+    "C12_symmetric_partial, C12_symmetric_flat and the exact = false half of the 'for both' theorems are kept as statements "
+    "about the old code: for exact = false on chained specifications only the certificate-level symmetry holds. The fuel-free statements still quantify the parse-tree maps over 'every fuel above some bound' (the bound "
     "exists for every tree; it is not computed). Objects are modelled by parse trees: that objects of a class and "
     "well-formed parse trees correspond one to one is the strategies' forward/backward-map contract (C07), checked per "
     "case by brute force (map compared object by object with the model's tree map through forward_map / backward_map). "
@@ -124,7 +126,7 @@ def _G():
     return c12_grammars
 
 
-# The open finding "asymmetric-check-with-chained-equivalences": the pair of findings/C12_asymmetric_check.py
+# The finding "asymmetric-check-with-chained-equivalences" (fixed by 91c1aef): the pair of findings/C12_asymmetric_check.py
 ASYM_G1 = [["u", [1, 2]], ["u", [3]], ["u", [3, 1]], ["u", [4]], ["u", [5]], ["u", [6]], ["u", [7, 8]], ["a", "b"],
            ["p", [9, 3]], ["a", "a"]]
 ASYM_G2 = [["u", [1, 2]], ["u", [2, 3]], ["u", [3]], ["u", [4]], ["u", [5]], ["u", [6]], ["u", [7, 8]], ["a", "b"],
@@ -135,8 +137,8 @@ _EXACT = []
 
 def exact_mode():
     """Which ancestor test the code under test implements (Model.anc_pairs): 0 = product of the two equivalence
-    paths (as /repo: the witness pair is answered True one way, False the other), 1 = pairs of current classes only
-    (the proposed repair: False both ways).  Decided once per process by running the witness pair."""
+    paths (the code before fix 91c1aef: the witness pair is answered True one way, False the other), 1 = pairs of
+    current classes only (/repo as it is, since 91c1aef: False both ways).  Decided once per process by running the witness pair."""
     if not _EXACT:
         from comb_spec_searcher.isomorphism import Isomorphism
 
@@ -367,7 +369,7 @@ def gen_stale_case(rng):
 
 
 def gen_asym_case(rng):
-    """the shape of the open finding, decorated: two chains of four uncollapsed equivalence steps, the class at
+    """the shape of the asymmetry finding (fixed by 91c1aef), decorated: two chains of four uncollapsed equivalence steps, the class at
     the end referring back to the SECOND class of the chain on one side and to the FIRST on the other, and a
     candidate pair that is met both inside and outside the pair in progress"""
     g1, g2 = copy.deepcopy(ASYM_G1), copy.deepcopy(ASYM_G2)
@@ -844,6 +846,13 @@ def _impl_equiv(case):
             "why": "; ".join(why) or None, "tags": ["equiv", "equiv:%d" % int(bool(ab[0]))]}
 
 
+def _nonequiv_reverse(spec):
+    from comb_spec_searcher.strategies.rule import ReverseRule
+
+    return any(isinstance(r, ReverseRule) and len(r.original_rule.non_empty_children()) != 1
+               for r in spec.rules_dict.values())
+
+
 def impl(case):
     from comb_spec_searcher.isomorphism import Bijection, Isomorphism
 
@@ -866,8 +875,14 @@ def impl(case):
     iso = Isomorphism(s1, s2)
     found = bool(iso.are_isomorphic())
     bij = Bijection.construct(s1, s2)
-    if (bij is not None) != found:
-        why.append("Bijection.construct returned %s although are_isomorphic() is %s" % (bij, found))
+    # since 25bcc90 no bijection is handed out when a specification uses the reverse of a non-equivalence
+    # rule (objects cannot be mapped through it); the isomorphism test itself still answers
+    blocked = _nonequiv_reverse(s1) or _nonequiv_reverse(s2)
+    if (bij is not None) != (found and not blocked):
+        why.append("Bijection.construct returned %s although are_isomorphic() is %s%s"
+                   % (bij, found, " and a non-equivalence reverse rule is present" if blocked else ""))
+    if blocked:
+        tags.append("non-equivalence-reverse-rule")
     # ---- symmetry / reflexivity of the isomorphism test (oracle part)
     back = chk(s2, s1)
     asym = back != found
@@ -943,14 +958,16 @@ def impl(case):
                 except Exception as ex:  # pylint: disable=broad-except
                     ress.append([_code(ex)])
         if unsupported:
+            # a constructed bijection must map every object (C12); NotImplementedError is no excuse
             tags.append("maps-unsupported")
+            why.append("a constructed bijection refuses to map: NotImplementedError: %s" % unsupported)
             trees1, trees2, res1, res2 = [], [], [], []
     if bij is not None:
         enc = [1, d1.enc(), d2.enc(), FUEL, out_order, trees1, trees2, exact_mode()]
         out = [0, 1, 1, res1, res2]
     else:
         enc = [0, d1.enc(), d2.enc(), FUEL, [], [], [], exact_mode()]
-        out = [0, 0, 0, [], []]
+        out = [0, int(found), 0, [], []]
     for d, nm in ((d1, "spec1"), (d2, "spec2")):
         for b in d.wf():
             tags.append("hypothesis-fails:%s" % b)
@@ -1005,8 +1022,9 @@ def oracle(case, res):
 
 
 def finding_match(case, why):
-    """the open finding: the two directions of Isomorphism.check differ (both answer, no exception, nothing else
-    wrong) on a pair with chained equivalence rules, with the ancestor test of /repo"""
+    """the finding fixed by 91c1aef: the two directions of Isomorphism.check differ (both answer, no exception, nothing
+    else wrong) on a pair with chained equivalence rules, with the ancestor test of the code BEFORE the fix
+    (exact_mode() == 0).  On /repo as it is exact_mode() is 1 and the entry is `fixed`: nothing matches, nothing is masked"""
     if (why and why.startswith("check(spec1, spec2) = ") and why.endswith(" [chained equivalence rules]")
             and ";" not in why and ":" not in why.split("=", 1)[1] and exact_mode() == 0):
         return KF_ASYM
